@@ -344,7 +344,7 @@ Qed.
 
 Lemma step_InvL s o : InvL s -> InvL (fst (step s o)).
 Proof.
-  intros HL. destruct o as [c sh|c ab|c|c i|c|w|w p|w|n]; cbn [step].
+  intros HL. destruct o as [c sh|c ab|c|c i|c|w|w p|w|n|w']; cbn [step].
   - (* Scope *)
     destruct (ph (calls s c)) eqn:Ep; cbn [fst]; try exact HL.
     unfold InvL, set_calls. cbn [lb lq calls]. apply L_upd_same; [| |exact HL]; unfold holds, waitq; cbn; now rewrite Ep.
@@ -404,13 +404,15 @@ Proof.
   - (* ThreadStart *)
     destruct (wk s w); cbn [fst]; try exact HL. destruct (fut _); exact HL.
   - (* ThreadFinish *)
-    destruct (wk s w) as [|d|d| |]; cbn [fst]; try exact HL.
+    destruct (wk s w) as [|d|d| | |]; cbn [fst]; try exact HL.
     unfold InvL. cbn [lb lq calls]. apply L_upd_same; [| |exact HL]; unfold holds, waitq; reflexivity.
   - (* ThreadCheckCancelled *)
     destruct (wk s w); exact HL.
   - (* SetTotal *)
     pose proof (grant_loop_L n (lq s) (lb s) (calls s) HL) as H.
     destruct (grant_loop n (lq s) (lb s) (calls s)) as [[q b] cs]. exact H.
+  - (* ThreadReturn *)
+    destruct (wk s w'); exact HL.
 Qed.
 
 (* ------------------------------------------------------------------------------------------------ *)
@@ -436,7 +438,7 @@ Qed.
 Lemma step_lb_bound s o :
   length (lb (fst (step s o))) <= Nat.max (length (lb s)) (total (fst (step s o))).
 Proof.
-  destruct o as [c sh|c ab|c|c i|c|w|w p|w|n]; cbn [step].
+  destruct o as [c sh|c ab|c|c i|c|w|w p|w|n|w']; cbn [step].
   - destruct (ph (calls s c)); cbn; lia.
   - destruct (ph (calls s c)); cbn; lia.
   - destruct (ph (calls s c)) as [| | | |w|o|r]; cbn [fst]; try lia.
@@ -464,6 +466,7 @@ Proof.
   - destruct (wk s w); cbn; lia.
   - pose proof (grant_loop_len n (lq s) (lb s) (calls s)) as H.
     destruct (grant_loop n (lq s) (lb s) (calls s)) as [[q b] cs]. cbn in *. lia.
+  - destruct (wk s w'); cbn; lia.
 Qed.
 
 Lemma step_total s o :
@@ -471,7 +474,7 @@ Lemma step_total s o :
              lowered (fst (step s o)) = orb (lowered s) (Nat.ltb n (total s))) \/
   (total (fst (step s o)) = total s /\ lowered (fst (step s o)) = lowered s).
 Proof.
-  destruct o as [c sh|c ab|c|c i|c|w|w p|w|n]; cbn [step]; [right|right|right|right|right|right|right|right|left].
+  destruct o as [c sh|c ab|c|c i|c|w|w p|w|n|w']; cbn [step]; [right|right|right|right|right|right|right|right|left|right].
   - destruct (ph (calls s c)); cbn; tauto.
   - destruct (ph (calls s c)); cbn; tauto.
   - destruct (ph (calls s c)) as [| | | |w|o|r]; cbn [fst]; try tauto.
@@ -490,6 +493,7 @@ Proof.
   - destruct (wk s w); cbn; tauto.
   - destruct (wk s w); cbn; tauto.
   - exists n. destruct (grant_loop n (lq s) (lb s) (calls s)) as [[q b] cs]. cbn. tauto.
+  - destruct (wk s w'); cbn; tauto.
 Qed.
 
 Definition InvC (s : st) : Prop := lowered s = false -> length (lb s) <= total s.
@@ -764,9 +768,40 @@ Proof.
     + intros x Hx. unfold hasok. cbn. split; [discriminate|discriminate].
 Qed.
 
+(* a worker that dequeues an item whose future is already cancelled moves to a state X that carries no call
+   (X = WSkip at HEAD, X = WLost in the pinned tree) *)
+Lemma start_skip_W s w c X :
+  (forall d, hasb X d = false) -> (forall d, X <> WExec d) ->
+  W s -> wk s w = WQueued c -> fut (calls s c) = FCancelled ->
+  W (mk (total s) (lb s) (lq s) (prune s) (idle s) (nwork s) (upd (wk s) w X) (calls s) (exec s) (lowered s)).
+Proof.
+  intros HX HXe HW Ewk Ef. destruct HW as [H1 H2 H3 H4 H5 H6 H7 H8].
+  assert (Hlt : w < nwork s).
+  { destruct (Nat.lt_ge_cases w (nwork s)) as [|Hge]; [assumption|]. rewrite (H6 w Hge) in Ewk. discriminate. }
+  assert (Hni : forall x, In x (idle s) -> x <> w).
+  { intros x Hx ->. destruct (H4 w Hx) as [E _]. rewrite E in Ewk. discriminate. }
+  assert (Hmono : forall x d, hasb (upd (wk s) w X x) d = true -> hasb (wk s x) d = true).
+  { intros x d. unfold upd. destruct (Nat.eqb_spec x w) as [->|]; [rewrite HX; discriminate|auto]. }
+  assert (Hback : forall x d, d <> c -> hasb (wk s x) d = true -> hasb (upd (wk s) w X x) d = true).
+  { intros x d Hd. unfold upd. destruct (Nat.eqb_spec x w) as [->|]; [|auto].
+    rewrite Ewk. cbn. intros E. apply Nat.eqb_eq in E. congruence. }
+  unfold W. cbn [wk idle nwork exec calls]. constructor.
+  - intros d. apply (callok_wk_mono (wk s)); [intros x; apply Hmono| |apply H1].
+    intros Efd x. apply Hback. intros ->. rewrite Ef in Efd. discriminate.
+  - intros x d Hx. apply H2. now apply Hmono.
+  - intros x x' d Hx Hx'. apply (H3 x x' d); now apply Hmono.
+  - intros x Hx. rewrite upd_other; [now apply H4|now apply Hni].
+  - exact H5.
+  - intros x Hx. rewrite upd_other; [now apply H6|lia].
+  - exact H7.
+  - intros d. rewrite H8. split; intros [x Hx].
+    + exists x. rewrite upd_other; [exact Hx|]. intros ->. rewrite Ewk in Hx. discriminate.
+    + revert Hx. unfold upd. destruct (Nat.eqb_spec x w) as [->|]; [intros E; exfalso; exact (HXe d E)|intros Hx; now exists x].
+Qed.
+
 Lemma step_W s o : W s -> W (fst (step s o)).
 Proof.
-  intros HW. destruct o as [c sh|c ab|c|c i|c|w|w p|w|n]; cbn [step].
+  intros HW. destruct o as [c sh|c ab|c|c i|c|w|w p|w|n|w']; cbn [step].
   - (* Scope *)
     destruct (ph (calls s c)) eqn:Ep; cbn [fst]; try exact HW.
     pose proof (W_call _ _ _ _ _ HW c) as Hc. unfold callok in Hc. rewrite Ep in Hc. destruct Hc as (A & B & C).
@@ -824,7 +859,7 @@ Proof.
   - (* Deliver *)
     destruct (walk _) eqn:Ew; cbn [fst]; [|exact HW]. now apply deliver_W.
   - (* ThreadStart *)
-    destruct (wk s w) as [|c|c| |] eqn:Ewk; cbn [fst]; try exact HW.
+    destruct (wk s w) as [|c|c| | |] eqn:Ewk; cbn [fst]; try exact HW.
     destruct HW as [H1 H2 H3 H4 H5 H6 H7 H8].
     assert (Hwc : hasb (wk s w) c = true) by (rewrite Ewk; cbn; apply Nat.eqb_refl).
     assert (Hlt : w < nwork s).
@@ -852,26 +887,11 @@ Proof.
            ++ left. congruence.
            ++ right. now exists x.
     + destruct (H2 w c Hwc) as [Hno _]. exfalso. exact (Hno o Ef).
-    + (* the item is skipped: the worker goes back to queue.get() *)
-      assert (Hmono : forall x d, hasb (upd (wk s) w WLost x) d = true -> hasb (wk s x) d = true).
-      { intros x d. unfold upd. destruct (Nat.eqb_spec x w) as [->|]; [discriminate|auto]. }
-      assert (Hback : forall x d, d <> c -> hasb (wk s x) d = true -> hasb (upd (wk s) w WLost x) d = true).
-      { intros x d Hd. unfold upd. destruct (Nat.eqb_spec x w) as [->|]; [|auto].
-        rewrite Ewk. cbn. intros E. apply Nat.eqb_eq in E. congruence. }
-      unfold W. cbn [wk idle nwork exec calls fst]. constructor.
-      * intros d. apply (callok_wk_mono (wk s)); [intros x; apply Hmono| |apply H1].
-        intros Efd x. apply Hback. intros ->. rewrite Ef in Efd. discriminate.
-      * intros x d Hx. apply H2. now apply Hmono.
-      * intros x x' d Hx Hx'. apply (H3 x x' d); now apply Hmono.
-      * intros x Hx. rewrite upd_other; [now apply H4|now apply Hni].
-      * exact H5.
-      * intros x Hx. rewrite upd_other; [now apply H6|lia].
-      * exact H7.
-      * intros d. rewrite H8. split; intros [x Hx].
-        -- exists x. rewrite upd_other; [exact Hx|]. intros ->. rewrite Ewk in Hx. discriminate.
-        -- revert Hx. unfold upd. destruct (Nat.eqb_spec x w) as [->|]; [discriminate|intros Hx; now exists x].
+    + (* the item is skipped *)
+      apply (start_skip_W s w c WSkip); auto; try discriminate.
+      constructor; assumption.
   - (* ThreadFinish *)
-    destruct (wk s w) as [|c|c| |] eqn:Ewk; cbn [fst]; try exact HW.
+    destruct (wk s w) as [|c|c| | |] eqn:Ewk; cbn [fst]; try exact HW.
     destruct HW as [H1 H2 H3 H4 H5 H6 H7 H8].
     assert (Hwc : hasb (wk s w) c = true) by (rewrite Ewk; cbn; apply Nat.eqb_refl).
     assert (Hlt : w < nwork s).
@@ -919,6 +939,27 @@ Proof.
     pose proof (grant_loop_core n (lq s) (lb s) (calls s)) as H.
     destruct (grant_loop n (lq s) (lb s) (calls s)) as [[q b] cs]. cbn [fst snd] in *.
     unfold W. cbn [wk idle nwork exec calls]. now apply Wp_core_ext with (cs := calls s).
+  - (* ThreadReturn: the payload-less report of a skipped item *)
+    destruct (wk s w') as [|c|c| | |] eqn:Ewk; cbn [fst]; try exact HW.
+    destruct HW as [H1 H2 H3 H4 H5 H6 H7 H8].
+    assert (Hlt : w' < nwork s).
+    { destruct (Nat.lt_ge_cases w' (nwork s)) as [|Hge]; [assumption|]. rewrite (H6 w' Hge) in Ewk. discriminate. }
+    assert (Hni : forall x, In x (idle s) -> x <> w').
+    { intros x Hx ->. destruct (H4 w' Hx) as [E _]. rewrite E in Ewk. discriminate. }
+    assert (Hsame : forall x d, hasb (upd (wk s) w' WFree x) d = hasb (wk s x) d).
+    { intros x d. unfold upd. destruct (Nat.eqb_spec x w') as [->|]; [rewrite Ewk|]; reflexivity. }
+    unfold W. cbn [wk idle nwork exec calls]. constructor.
+    + intros d. apply (callok_wk_mono (wk s)); [intros x; now rewrite Hsame|intros _ x; now rewrite Hsame|apply H1].
+    + intros x d. rewrite Hsame. apply H2.
+    + intros x x' d. rewrite !Hsame. apply H3.
+    + intros x [<-|Hx]; [split; [apply upd_same|exact Hlt]|].
+      rewrite upd_other; [now apply H4|now apply Hni].
+    + constructor; [|exact H5]. intros Hin. exact (Hni w' Hin eq_refl).
+    + intros x Hx. rewrite upd_other; [now apply H6|lia].
+    + exact H7.
+    + intros d. rewrite H8. split; intros [x Hx].
+      * exists x. rewrite upd_other; [exact Hx|]. intros ->. rewrite Ewk in Hx. discriminate.
+      * revert Hx. unfold upd. destruct (Nat.eqb_spec x w') as [->|]; [discriminate|intros Hx; now exists x].
 Qed.
 
 (* ------------------------------------------------------------------------------------------------ *)
@@ -1048,7 +1089,7 @@ Lemma fin_written_by_finish s o c p :
   fin (calls (fst (step s o)) c) = Some p ->
   fin (calls s c) = Some p \/ exists w, o = ThreadFinish w p /\ wk s w = WExec c.
 Proof.
-  destruct o as [d sh|d ab|d|d i|d|w|w q|w|n]; cbn [step].
+  destruct o as [d sh|d ab|d|d i|d|w|w q|w|n|w']; cbn [step].
   - destruct (ph (calls s d)); cbn [fst]; auto. cbn. unfold upd. destruct (Nat.eqb_spec c d) as [->|]; auto.
   - destruct (ph (calls s d)); cbn [fst]; auto. cbn. unfold upd. destruct (Nat.eqb_spec c d) as [->|]; auto. discriminate.
   - assert (Hrel : forall s0 x, fin (calls (release s0 x) c) = fin (calls s0 c)).
@@ -1078,12 +1119,13 @@ Proof.
     + destruct (orb _ _); auto. cbn. unfold upd. destruct (Nat.eqb_spec c d) as [->|]; auto.
     + destruct (abandon _); auto. destruct (fut _); auto. cbn. unfold upd. destruct (Nat.eqb_spec c d) as [->|]; auto.
   - destruct (wk s w); cbn [fst]; auto. destruct (fut _); cbn; auto.
-  - destruct (wk s w) as [|d|d| |] eqn:Ew; cbn [fst]; auto. cbn. unfold upd.
+  - destruct (wk s w) as [|d|d| | |] eqn:Ew; cbn [fst]; auto. cbn. unfold upd.
     destruct (Nat.eqb_spec c d) as [->|]; auto. cbn. intros E. injection E as ->. right. now exists w.
   - destruct (wk s w); cbn; auto.
   - pose proof (grant_loop_core n (lq s) (lb s) (calls s) c) as H.
     destruct (grant_loop n (lq s) (lb s) (calls s)) as [[q b] cs]. cbn in *.
     destruct H as (_ & _ & _ & _ & ->). auto.
+  - destruct (wk s w'); cbn; auto.
 Qed.
 
 (* ------------------------------------------------------------------------------------------------ *)
@@ -1132,7 +1174,7 @@ Lemma step_keeps_phase s o c :
   o <> Resume c -> ph (calls s c) <> PNone ->
   ph (calls (fst (step s o)) c) = ph (calls s c) /\ abandon (calls (fst (step s o)) c) = abandon (calls s c).
 Proof.
-  intros Ho Hp. destruct o as [d sh|d ab|d|d i|d|w|w q|w|n]; cbn [step].
+  intros Ho Hp. destruct o as [d sh|d ab|d|d i|d|w|w q|w|n|w']; cbn [step].
   - destruct (Nat.eq_dec c d) as [<-|Hne].
     + destruct (ph (calls s c)) eqn:E; cbn [fst]; tauto.
     + destruct (ph (calls s d)); cbn [fst]; try tauto. cbn. rewrite upd_other by exact Hne. tauto.
@@ -1156,12 +1198,13 @@ Proof.
     + destruct (abandon (calls s d)); [|tauto]. destruct (fut _); try tauto.
       cbn. unfold upd. destruct (Nat.eqb_spec c d) as [->|]; cbn; tauto.
   - destruct (wk s w); cbn [fst]; try tauto. destruct (fut _); cbn; tauto.
-  - destruct (wk s w) as [|d|d| |]; cbn [fst]; try tauto. cbn. unfold upd.
+  - destruct (wk s w) as [|d|d| | |]; cbn [fst]; try tauto. cbn. unfold upd.
     destruct (Nat.eqb_spec c d) as [->|]; cbn; tauto.
   - destruct (wk s w); cbn; tauto.
   - pose proof (grant_loop_core n (lq s) (lb s) (calls s) c) as H.
     destruct (grant_loop n (lq s) (lb s) (calls s)) as [[q b] cs]. cbn in *.
     destruct H as (-> & _ & -> & _). tauto.
+  - destruct (wk s w'); cbn; tauto.
 Qed.
 
 (* 5. without abandon_on_cancel the caller is not interrupted between the start of the call scope and the report *)
@@ -1210,7 +1253,8 @@ Qed.
 
 (* 7. worker reuse *)
 Lemma resume_wk s c :
-  wk (fst (step s (Resume c))) = wk s /\ idle (fst (step s (Resume c))) = idle s \/
+  wk (fst (step s (Resume c))) = wk s /\ idle (fst (step s (Resume c))) = idle s /\
+  nwork (fst (step s (Resume c))) = nwork s \/
   (fst (step s (Resume c)) = enter_scope s c /\
    (ph (calls s c) = PLimYield \/ ph (calls s c) = PWaitLim /\ evset (calls s c) = true /\ wcanc (calls s c) = false)).
 Proof.
@@ -1218,12 +1262,12 @@ Proof.
   - left; auto.
   - destruct (walk _); cbn [fst]; [left; cbn; auto|]. destruct (orb _ _); cbn; auto.
   - destruct (wcanc _) eqn:Ewc; cbn [fst].
-    + left. unfold set_ph, set_calls. cbn [wk idle]. destruct (evset _); [|cbn; auto].
-      destruct (release_fields (set_lim s (lb s) (remove_c c (lq s))) c) as (-> & -> & _). cbn. auto.
+    + left. unfold set_ph, set_calls. cbn [wk idle nwork]. destruct (evset _); [|cbn; auto].
+      destruct (release_fields (set_lim s (lb s) (remove_c c (lq s))) c) as (-> & -> & -> & _). cbn. auto.
     + destruct (evset _) eqn:Eev; cbn [fst]; [right; auto|left; auto].
   - right; auto.
-  - left. destruct (fut _); cbn [fst]; auto; unfold set_ph, set_calls; cbn [wk idle];
-      destruct (release_fields s c) as (-> & -> & _); auto.
+  - left. destruct (fut _); cbn [fst]; auto; unfold set_ph, set_calls; cbn [wk idle nwork];
+      destruct (release_fields s c) as (-> & -> & -> & _); auto.
   - left. cbn. auto.
   - left; auto.
 Qed.
@@ -1263,7 +1307,7 @@ Proof.
     + intros Ei. unfold enter_scope. destruct (idle s); [contradiction|reflexivity].
   - intros o w c H1 H0.
     assert (Hnot : wk (fst (step s o)) w <> wk s w) by congruence.
-    destruct o as [d sh|d ab|d|d i|d|x|x q|x|n]; cbn [step] in *.
+    destruct o as [d sh|d ab|d|d i|d|x|x q|x|n|x']; cbn [step] in *.
     + exfalso. apply Hnot. destruct (ph (calls s d)); reflexivity.
     + exfalso. apply Hnot. destruct (ph (calls s d)); reflexivity.
     + destruct (resume_wk s d) as [[E _]|[E _]].
@@ -1279,25 +1323,25 @@ Proof.
       match goal with |- context [deliver ?s1 d] => destruct (deliver_fields s1 d) as (_ & _ & _ & _ & _ & -> & _) end. reflexivity.
     + exfalso. apply Hnot. destruct (walk _); [|reflexivity]. cbn [fst].
       destruct (deliver_fields s d) as (_ & _ & _ & _ & _ & -> & _). reflexivity.
-    + exfalso. destruct (wk s x) as [|d|d| |] eqn:Ex; try (now apply Hnot).
+    + exfalso. destruct (wk s x) as [|d|d| | |] eqn:Ex; try (now apply Hnot).
       destruct (fut (calls s d)); cbn [fst wk] in H1; unfold upd in H1;
         destruct (Nat.eqb_spec w x) as [->|]; try discriminate; contradiction.
-    + exfalso. destruct (wk s x) as [|d|d| |] eqn:Ex; try (now apply Hnot).
+    + exfalso. destruct (wk s x) as [|d|d| | |] eqn:Ex; try (now apply Hnot).
       cbn [fst wk] in H1. unfold upd in H1. destruct (Nat.eqb_spec w x) as [->|]; [discriminate|contradiction].
     + exfalso. apply Hnot. destruct (wk s x); reflexivity.
     + exfalso. apply Hnot. destruct (grant_loop n (lq s) (lb s) (calls s)) as [[q b] cs]. reflexivity.
+    + exfalso. destruct (wk s x') as [|d|d| | |] eqn:Ex; try (now apply Hnot).
+      cbn [fst wk] in H1. unfold upd in H1. destruct (Nat.eqb_spec w x') as [->|]; [discriminate|contradiction].
   - intros w Hw. now apply (W_idle _ _ _ _ _ HW).
 Qed.
 
 (* ------------------------------------------------------------------------------------------------ *)
-(* FINDING (worker leak): a worker that dequeues an item whose future is already cancelled (abandon_on_cancel=True,
-   caller cancelled before the thread picked the item up) skips it WITHOUT going back to the idle deque
-   (WorkerThread.run, `if not future.cancelled()`): it is never reused and never pruned. *)
+(* Worker pool: no worker is ever lost (HEAD, after fix 952e60b); the PINNED tree loses workers. *)
 
 Lemma lost_forever s o w : W s -> wk s w = WLost -> wk (fst (step s o)) w = WLost.
 Proof.
   intros HW Hl.
-  destruct o as [d sh|d ab|d|d i|d|x|x q|x|n]; cbn [step].
+  destruct o as [d sh|d ab|d|d i|d|x|x q|x|n|x']; cbn [step].
   - destruct (ph (calls s d)); exact Hl.
   - destruct (ph (calls s d)); exact Hl.
   - destruct (resume_wk s d) as [[E _]|[E _]]; cbn [step] in E; rewrite E; [exact Hl|].
@@ -1307,33 +1351,184 @@ Proof.
   - destruct (Nat.ltb _ _); [|exact Hl]. cbn [fst]. destruct (walk _); [|exact Hl].
     match goal with |- context [deliver ?s1 d] => destruct (deliver_fields s1 d) as (_ & _ & _ & _ & _ & -> & _) end. exact Hl.
   - destruct (walk _); [|exact Hl]. cbn [fst]. destruct (deliver_fields s d) as (_ & _ & _ & _ & _ & -> & _). exact Hl.
-  - destruct (wk s x) as [|d|d| |] eqn:Ex; try exact Hl.
+  - destruct (wk s x) as [|d|d| | |] eqn:Ex; try exact Hl.
     destruct (fut (calls s d)); cbn [fst wk]; (rewrite upd_other; [exact Hl|intros ->; congruence]).
-  - destruct (wk s x) as [|d|d| |] eqn:Ex; try exact Hl.
+  - destruct (wk s x) as [|d|d| | |] eqn:Ex; try exact Hl.
     cbn [fst wk]. rewrite upd_other; [exact Hl|intros ->; congruence].
   - destruct (wk s x); exact Hl.
   - destruct (grant_loop n (lq s) (lb s) (calls s)) as [[q b] cs]. exact Hl.
+  - destruct (wk s x') as [|d|d| | |] eqn:Ex; try exact Hl.
+    cbn [fst wk]. rewrite upd_other; [exact Hl|intros ->; congruence].
 Qed.
 
+(* ---- the pinned tree ---- *)
+Definition reach_pinned (tot : nat) (pr : bool) (s : st) : Prop :=
+  exists ops, s = final step_pinned (init tot pr) ops.
+
+Lemma step_pinned_cases s o :
+  step_pinned s o = step s o \/
+  exists w c, o = ThreadStart w /\ wk s w = WQueued c /\ fut (calls s c) = FCancelled /\
+    step_pinned s o =
+    (mk (total s) (lb s) (lq s) (prune s) (idle s) (nwork s) (upd (wk s) w WLost) (calls s) (exec s) (lowered s), RNone).
+Proof.
+  destruct o; try (left; reflexivity). cbn [step_pinned].
+  destruct (wk s w) as [|c|c| | |] eqn:Ew; try (left; reflexivity).
+  destruct (fut (calls s c)) eqn:Ef; try (left; reflexivity).
+  right. exists w, c. auto.
+Qed.
+
+Lemma step_pinned_W s o : W s -> W (fst (step_pinned s o)).
+Proof.
+  intros HW. destruct (step_pinned_cases s o) as [->|(w & c & -> & Ew & Ef & ->)]; [now apply step_W|].
+  cbn [fst]. apply (start_skip_W s w c WLost); auto; discriminate.
+Qed.
+
+Lemma lost_forever_pinned s o w : W s -> wk s w = WLost -> wk (fst (step_pinned s o)) w = WLost.
+Proof.
+  intros HW Hl. destruct (step_pinned_cases s o) as [->|(x & c & -> & Ew & Ef & ->)]; [now apply lost_forever|].
+  cbn [fst wk]. rewrite upd_other; [exact Hl|intros ->; congruence].
+Qed.
+
+Lemma reach_pinned_W tot pr s : reach_pinned tot pr s -> W s.
+Proof. intros [ops ->]. apply (final_inv step_pinned W step_pinned_W). apply W_init. Qed.
+
+(* abandon_on_cancel=True: the caller's scope is cancelled after the item was queued for the worker but before the
+   worker thread dequeued it (in the real code e.g. a cancellation that arrives while the caller is in the limiter's
+   shielded checkpoint and is delivered one loop cycle after `await future` started) *)
 Definition leak_ops : list op :=
   [Scope 0 false; Call 0 true; Resume 0; Resume 0; CancelCaller 0 0; Resume 0; Deliver 0; ThreadStart 0; Resume 0].
 
-Theorem rs_no_worker_leak_refuted :
-  exists ops, let s := final step (init 1 false) ops in
+(* FINDING F8 (fixed by 952e60b), kept as a theorem about the PINNED transition system *)
+Theorem rs_no_worker_leak_refuted_pinned :
+  exists ops, let s := final step_pinned (init 1 false) ops in
     ph (calls s 0) = PDone DCancelled /\ lb s = [] /\ exec s = [] /\
     nwork s = 1 /\ wk s 0 = WLost /\ idle s = [] /\
-    forall more, wk (final step s more) 0 = WLost.
+    forall more, wk (final step_pinned s more) 0 = WLost.
 Proof.
   exists leak_ops. cbn zeta.
-  set (s0 := final step (init 1 false) leak_ops).
-  assert (R : reach 1 false s0) by (now exists leak_ops).
+  set (s0 := final step_pinned (init 1 false) leak_ops).
+  assert (R : reach_pinned 1 false s0) by (now exists leak_ops).
   assert (H0 : wk s0 0 = WLost) by (vm_compute; reflexivity).
   refine (conj _ (conj _ (conj _ (conj _ (conj _ (conj _ _)))))); try (vm_compute; reflexivity).
   intros more. clearbody s0. revert s0 R H0.
   induction more as [|o r IH]; intros s0 R H0; [exact H0|]. cbn. apply IH.
-  - now apply reach_step.
-  - apply lost_forever; [|exact H0]. now destruct (reach_inv _ _ _ R) as (_ & _ & HW).
+  - destruct R as [ops ->]. exists (ops ++ [o]). rewrite final_app. reflexivity.
+  - apply lost_forever_pinned; [|exact H0]. now apply (reach_pinned_W 1 false).
 Qed.
+
+(* ---- HEAD: the pool invariant ---- *)
+Definition Pool (s : st) : Prop :=
+  (forall w, wk s w <> WLost) /\ (forall w, w < nwork s -> wk s w = WFree -> In w (idle s)).
+
+Lemma Pool_init tot pr : Pool (init tot pr).
+Proof. split; cbn; [discriminate|lia]. Qed.
+
+Lemma enter_pool_spec s c :
+  W s ->
+  let s' := enter_scope s c in
+  let w := hd (nwork s) (idle s) in
+  (forall x, In x (idle s) -> x <> w -> In x (idle s') \/ wk s' x = WStopped) /\
+  (forall x, x < nwork s' -> x <> w -> x < nwork s).
+Proof.
+  intros HW. unfold enter_scope. destruct (idle s) as [|w rest] eqn:Ei; cbn [hd wk idle nwork].
+  - split; [intros x []|]. intros x Hx Hne. lia.
+  - split; [|auto]. intros x [<-|Hx] Hne; [congruence|].
+    destruct (prune s); [|now left]. right. rewrite stop_all_spec.
+    apply existsb_eqb_in in Hx. now rewrite Hx.
+Qed.
+
+Lemma Pool_same s s' :
+  wk s' = wk s -> idle s' = idle s -> nwork s' = nwork s -> Pool s -> Pool s'.
+Proof. intros E1 E2 E3 [A B]. unfold Pool. rewrite E1, E2, E3. auto. Qed.
+
+Lemma step_Pool s o : W s -> Pool s -> Pool (fst (step s o)).
+Proof.
+  intros HW HP. destruct o as [d sh|d ab|d|d i|d|x|x q|x|n|x']; cbn [step].
+  - destruct (ph (calls s d)); exact HP.
+  - destruct (ph (calls s d)); exact HP.
+  - destruct (resume_wk s d) as [(E1 & E2 & E3)|[E _]]; cbn [step] in *.
+    + eapply Pool_same; eauto.
+    + rewrite E. pose proof (enter_wk_spec s d HW) as S. cbn zeta in S.
+      destruct S as (Swf & Sw & Sx & _).
+      destruct (enter_pool_spec s d HW) as [Q1 Q2]. destruct HP as [A B]. split.
+      * intros y Hy. destruct (Nat.eq_dec y (hd (nwork s) (idle s))) as [->|Hne]; [congruence|].
+        destruct (Sx y Hne) as [E2|(_ & _ & E2)]; [rewrite E2 in Hy; exact (A y Hy)|congruence].
+      * intros y Hlt Hf. destruct (Nat.eq_dec y (hd (nwork s) (idle s))) as [->|Hne]; [congruence|].
+        destruct (Sx y Hne) as [E2|(_ & _ & E2)]; [|congruence].
+        rewrite E2 in Hf. specialize (B y (Q2 y Hlt Hne) Hf).
+        destruct (Q1 y B Hne) as [|E3]; [assumption|congruence].
+  - destruct (Nat.ltb _ _); [|exact HP]. cbn [fst]. destruct (walk _); [|exact HP].
+    match goal with |- context [deliver ?s1 d] =>
+      destruct (deliver_fields s1 d) as (_ & _ & _ & _ & _ & E1 & E2 & E3 & _) end.
+    eapply Pool_same; eauto.
+  - destruct (walk _); [|exact HP]. cbn [fst].
+    destruct (deliver_fields s d) as (_ & _ & _ & _ & _ & E1 & E2 & E3 & _). eapply Pool_same; eauto.
+  - destruct HP as [A B]. destruct (wk s x) as [|c|c| | |] eqn:Ex; try (split; assumption).
+    assert (G : forall X, X <> WLost -> X <> WFree ->
+              Pool (mk (total s) (lb s) (lq s) (prune s) (idle s) (nwork s) (upd (wk s) x X) (calls s)
+                       (match X with WExec _ => c :: exec s | _ => exec s end) (lowered s))).
+    { intros X X1 X2. split; cbn [wk idle nwork].
+      - intros y. unfold upd. destruct (Nat.eqb_spec y x); [exact X1|apply A].
+      - intros y Hlt. unfold upd. destruct (Nat.eqb_spec y x); [congruence|now apply B]. }
+    destruct (fut (calls s c)); cbn [fst].
+    + apply (G (WExec c)); discriminate.
+    + apply (G (WExec c)); discriminate.
+    + apply (G WSkip); discriminate.
+  - destruct HP as [A B]. destruct (wk s x) as [|c|c| | |] eqn:Ex; try (split; assumption).
+    cbn [fst]. split; cbn [wk idle nwork].
+    + intros y. unfold upd. destruct (Nat.eqb_spec y x); [discriminate|apply A].
+    + intros y Hlt. unfold upd. destruct (Nat.eqb_spec y x) as [->|]; [intros _; now left|intros Hf; right; now apply B].
+  - destruct (wk s x); exact HP.
+  - destruct (grant_loop n (lq s) (lb s) (calls s)) as [[q b] cs]. exact HP.
+  - destruct HP as [A B]. destruct (wk s x') as [|c|c| | |] eqn:Ex; try (split; assumption).
+    cbn [fst]. split; cbn [wk idle nwork].
+    + intros y. unfold upd. destruct (Nat.eqb_spec y x'); [discriminate|apply A].
+    + intros y Hlt. unfold upd. destruct (Nat.eqb_spec y x') as [->|]; [intros _; now left|intros Hf; right; now apply B].
+Qed.
+
+Lemma reach_Pool tot pr s : reach tot pr s -> Pool s.
+Proof.
+  intros [ops ->].
+  assert (G : forall ops s0, W s0 -> Pool s0 -> Pool (final step s0 ops)).
+  { induction ops0 as [|o r IH]; intros s0 HW HP; [exact HP|]. cbn. apply IH; [now apply step_W|now apply step_Pool]. }
+  apply G; [apply W_init|apply Pool_init].
+Qed.
+
+(* 8. HEAD: no worker is ever lost - every worker ever created is idle (free and in the idle deque), has an item
+      queued, executes a function, has a (payload-less) report in flight, or was pruned; and each of the busy
+      states returns it to the idle deque through the thread's own next ops *)
+Theorem rs_no_worker_lost tot pr s :
+  reach tot pr s ->
+  (forall w, w < nwork s ->
+     (wk s w = WFree /\ In w (idle s)) \/ (exists c, wk s w = WQueued c) \/ (exists c, wk s w = WExec c) \/
+     wk s w = WSkip \/ wk s w = WStopped) /\
+  (forall w, wk s w <> WLost) /\
+  (forall w c, wk s w = WQueued c ->
+     wk (fst (step s (ThreadStart w))) w = WExec c \/ wk (fst (step s (ThreadStart w))) w = WSkip) /\
+  (forall w c p, wk s w = WExec c ->
+     let s' := fst (step s (ThreadFinish w p)) in wk s' w = WFree /\ In w (idle s')) /\
+  (forall w, wk s w = WSkip ->
+     let s' := fst (step s (ThreadReturn w)) in wk s' w = WFree /\ In w (idle s') /\ calls s' = calls s).
+Proof.
+  intros R. destruct (reach_Pool _ _ _ R) as [A B].
+  refine (conj _ (conj A (conj _ (conj _ _)))).
+  - intros w Hlt. specialize (A w). specialize (B w Hlt).
+    destruct (wk s w) as [|c|c| | |]; eauto 6. congruence.
+  - intros w c Ew. cbn [step]. rewrite Ew. destruct (fut (calls s c)); cbn [fst wk]; rewrite upd_same; auto.
+  - intros w c p Ew. cbn zeta. cbn [step]. rewrite Ew. cbn [fst wk idle]. rewrite upd_same. split; [reflexivity|now left].
+  - intros w Ew. cbn zeta. cbn [step]. rewrite Ew. cbn [fst wk idle calls]. rewrite upd_same.
+    split; [reflexivity|split; [now left|reflexivity]].
+Qed.
+
+(* the same history at HEAD: the skipped item is reported and the worker is idle again, reusable by the next call *)
+Example ex_no_leak_at_head :
+  let s := final step (init 1 false) leak_ops in
+  wk s 0 = WSkip /\ idle s = [] /\ ph (calls s 0) = PDone DCancelled /\
+  let s' := fst (step s (ThreadReturn 0)) in
+  wk s' 0 = WFree /\ idle s' = [0] /\ fut (calls s' 0) = FCancelled /\
+  ph (calls (final step s' [Call 1 false; Resume 1; Resume 1]) 1) = PAwait 0 /\
+  nwork (final step s' [Call 1 false; Resume 1; Resume 1]) = 1.
+Proof. vm_compute. repeat split; auto. Qed.
 
 (* ------------------------------------------------------------------------------------------------ *)
 (* the states visited by the codec (scripted op, then `settle`) are reachable states of the LTS *)
@@ -1350,7 +1545,7 @@ Proof.
     + now apply reach_step.
     + cbn [step]. destruct (walk _); reflexivity.
   - apply fold_reach.
-    + intros s0 w R0. destruct (wk s0 w); try exact R0. now apply reach_step.
+    + intros s0 w R0. destruct (wk s0 w); try exact R0; now apply reach_step.
     + apply fold_reach; [|exact R]. intros s0 c R0. destruct (runnable _); [now apply reach_step|exact R0].
 Qed.
 
